@@ -4,13 +4,10 @@
 (* event with fields "case" and "op".  Trace specifications judge and continue: *)
 (* a rejected case is appended to `bad` with a spec-computed diagnosis and the  *)
 (* rest of that case is skipped; the next "reset" event starts a new case.      *)
-EXTENDS Naturals, Sequences, FiniteSets, TLC, Json, IOUtils
+EXTENDS Naturals, Sequences, FiniteSets, TLC, Json, IOUtils, Fn
 
 Trace == ndJsonDeserialize(IOEnv.H5V_TRACE)
 
 Has(r, f) == f \in DOMAIN r
-EmptyFn   == [x \in {} |-> 0]
-FnPut(f, k, v) == [x \in (DOMAIN f) \cup {k} |-> IF x = k THEN v ELSE f[x]]
-FnDel(f, k)    == [x \in (DOMAIN f) \ {k} |-> f[x]]
 SeqRange(s) == {s[i] : i \in DOMAIN s}
 =============================================================================
